@@ -155,6 +155,64 @@ def _wrapped_key(kek_uid):
 
 WORKLOADS = ['main', 'attributes']
 
+# What an acknowledged operation must have left in the database FILE (read without the server, so
+# nothing a session merely holds in memory counts): label -> predicate(objects, ids). A small
+# independent model of the attribute operations and state changes - the reference states below come
+# from the implementation itself and could not show an acknowledged change that was never written.
+ST = E.State
+
+
+def _o(objs, ids, label):
+    return objs.get(ids.get(label) or '', {})
+
+
+POST = {
+    'main': {
+        'activate': lambda o, x: _o(o, x, 'create').get('state') == ST.ACTIVE.value,
+        'modify_1x': lambda o, x: _o(o, x, 'create').get('names') == ['k', 'renamed'],
+        'modify_20': lambda o, x: _o(o, x, 'register_secret').get('groups') == ['g2'],
+        'set_20': lambda o, x: _o(o, x, 'register_secret').get('sensitive') is True,
+        'delete_1x': lambda o, x: _o(o, x, 'create').get('names') == ['renamed'],
+        'delete_20': lambda o, x: _o(o, x, 'register_secret').get('appinfo') == [],
+        'revoke': lambda o, x: _o(o, x, 'create').get('state') == ST.DEACTIVATED.value,
+        'destroy_deactivated': lambda o, x: x['create'] not in o,
+        'revoke_compromise': lambda o, x: _o(o, x, 'register_symmetric').get('state') == ST.COMPROMISED.value,
+        'destroy_compromised': lambda o, x: x['register_symmetric'] not in o,
+        'destroy_opaque': lambda o, x: x['register_opaque'] not in o,
+        'register_secret': lambda o, x: _o(o, x, 'register_secret').get('names') == ['sd'] and
+        len(_o(o, x, 'register_secret').get('appinfo')) == 2,
+    },
+    'attributes': {
+        'mod_name_1': lambda o, x: _o(o, x, 'create').get('names') == ['n0', 'm1', 'n2'],
+        'mod_name_noidx': lambda o, x: _o(o, x, 'create').get('names') == ['m0', 'm1', 'n2'],
+        'mod_group_1': lambda o, x: _o(o, x, 'create').get('groups') == ['g0', 'h1'],
+        'mod_app_0': lambda o, x: [list(a) for a in _o(o, x, 'create').get('appinfo')] == [['ns', 'e0'], ['ns', 'd1']],
+        'mod_sensitive': lambda o, x: _o(o, x, 'create').get('sensitive') is True,
+        'failing_mod_oob': lambda o, x: _o(o, x, 'create').get('names') == ['m0', 'm1', 'n2'],
+        'del_name_2': lambda o, x: _o(o, x, 'create').get('names') == ['m0', 'm1'],
+        'del_group_0': lambda o, x: _o(o, x, 'create').get('groups') == ['h1'],
+        'del_app_1': lambda o, x: [list(a) for a in _o(o, x, 'create').get('appinfo')] == [['ns', 'e0']],
+        'batch_two_mods': lambda o, x: _o(o, x, 'register_rich_secret').get('names')[0] == 'b0' and
+        _o(o, x, 'register_rich_secret').get('groups')[0] == 'bg',
+        'batch_mod_fail_mod': lambda o, x: _o(o, x, 'register_rich_secret').get('names') == ['b0', 'c1'],
+        'set20_sensitive': lambda o, x: _o(o, x, 'register_rich_secret').get('sensitive') is True,
+        'mod20_name': lambda o, x: _o(o, x, 'register_rich_secret').get('names') == ['q0', 'c1'],
+        'mod20_app': lambda o, x: ['ns', 'q1'] in [list(a) for a in _o(o, x, 'register_rich_secret').get('appinfo')],
+        'del20_name_cur': lambda o, x: _o(o, x, 'register_rich_secret').get('names') == ['q0'],
+        'del20_group_ref': lambda o, x: _o(o, x, 'register_rich_secret').get('groups') == [],
+        'del20_app_cur': lambda o, x: [list(a) for a in _o(o, x, 'register_rich_secret').get('appinfo')] == [['ns', 'q1']],
+        'activate': lambda o, x: _o(o, x, 'create').get('state') == ST.ACTIVE.value,
+        'derive_named': lambda o, x: _o(o, x, 'derive_named').get('names') == ['dk0', 'dk1'],
+        'destroy_private_half': lambda o, x: x['create_key_pair'] not in o,
+        'revoke_dated': lambda o, x: _o(o, x, 'create').get('state') == ST.COMPROMISED.value,
+        'destroy_rich': lambda o, x: x['create'] not in o,
+        'destroy_secret': lambda o, x: x['register_rich_secret'] not in o,
+    },
+}
+POST['core'] = {k: v for k, v in POST['main'].items() if k in (
+    'activate', 'modify_1x', 'delete_1x', 'revoke', 'destroy_deactivated')}
+LAST_CTX = {}
+
 
 def run_workload(w, on_before=None, on_ack=None, name='main', on_item=None):
     """Runs the workload on world w; returns list of (label, ok)."""
@@ -177,6 +235,8 @@ def run_workload(w, on_before=None, on_ack=None, name='main', on_item=None):
         if uid is None and r.items and r.items[0].payload:
             uid = r.pfind(W.TAG.PRIVATE_KEY_UNIQUE_IDENTIFIER)
         ctx[label] = uid
+        LAST_CTX.clear()
+        LAST_CTX.update(ctx)
         out.append((label, ok, r.brief()))
         if on_ack:
             on_ack(i, label)
@@ -189,6 +249,7 @@ RSA_GENERATED = RSA_IDS['main']
 
 
 class States(list):
+    unwritten = ()
     """S_0..S_n plus, per operation index, the intermediate states a multi-item batch passes
     through (each item is an operation of its own: all-or-nothing holds per item)."""
     extra = {}
@@ -234,8 +295,20 @@ def reference_states(name='main'):
                 states.extra[i] = mids
             finally:
                 c.close()
-        res = run_workload(w, on_ack=lambda i, l: states.append(view(w.dump())), name=name,
-                           on_item=on_item)
+        states.unwritten = []
+
+        def on_ack(i, label):
+            dump = w.dump()
+            states.append(view(dump))
+            pred = POST.get(name, {}).get(label)
+            if pred is not None:
+                try:
+                    held = pred(ref_store.objects(dump), dict(LAST_CTX))
+                except Exception as e:   # noqa
+                    held = False
+                if not held:
+                    states.unwritten.append(label)
+        res = run_workload(w, on_ack=on_ack, name=name, on_item=on_item)
         return states, res
     finally:
         w.close()
@@ -434,6 +507,13 @@ def _one_workload(rep, tier, name, kinds, tot):
         rep.harness_error("workload '%s': operations fail on the uncrashed run: %s" % (name, failed[:3]))
     tot['distinct_states'] += len(set(states))
     tot['operations'] += len(labels)
+    tot['postconditions'] = tot.get('postconditions', 0) + len(POST.get(name, {}))
+    for label in getattr(states, 'unwritten', ()):
+        rep.violation("acknowledged-not-written|%s|wl=%s" % (label, name),
+                      "workload '%s': '%s' was acknowledged as successful but, with no crash at all, the "
+                      "database file does not hold its effect (an acknowledged operation must survive the "
+                      "death of the process right after its response)" % (name, label),
+                      {'level': 'postcondition', 'workload': name, 'op': label})
     tmp, pts = statement_level(None, states, labels)
     try:
         n = 16
@@ -511,6 +591,7 @@ def run(tier, seed):
         statement_level_points=stmt_points, syscall_level_points=sys_points,
         syscall_counts=counts, workload_operations=len(labels),
         distinct_reference_states=distinct_states, exhaustive=True,
+        acknowledged_effect_postconditions=tot.get('postconditions', 0),
     ), assumptions=[
         "process death, not power loss: what was handed to the kernel survives; torn single writes "
         "are outside the property",
@@ -523,6 +604,10 @@ def run(tier, seed):
 
 def replay(doc):
     states, res = reference_states(doc.get('workload', 'main'))
+    if doc.get('level') == 'postcondition':
+        bad = doc['op'] in getattr(states, 'unwritten', ())
+        return bad, "'%s' acknowledged, effect %s in the database file" % (
+            doc['op'], 'NOT' if bad else 'present')
     labels = [r[0] for r in res]
     if doc.get('level') == 'statement':
         tmp, pts = statement_level(None, states, labels)
